@@ -387,7 +387,8 @@ func initRegexExternals() {
 // strings.Replacer model: leftmost, non-overlapping, argument order.
 
 type replacerModel struct {
-	olds, news []string
+	olds       []string
+	news       []str // replacement texts may be symbolic; the patterns are concrete
 	singleByte bool
 }
 
@@ -401,7 +402,11 @@ func initReplacerExternals() {
 		m := &replacerModel{singleByte: true}
 		for i := 0; i < len(args); i += 2 {
 			o := in.concreteStrArg(args[i], "Replacer old string")
-			n := in.concreteStrArg(args[i+1], "Replacer new string")
+			n, ok := args[i+1].(str)
+			if !ok {
+				unsupported("Replacer new string: %T", args[i+1])
+			}
+			in.checkOpaque(n)
 			m.olds = append(m.olds, o)
 			m.news = append(m.news, n)
 			if len(o) != 1 {
@@ -430,7 +435,7 @@ func initReplacerExternals() {
 				replaced := false
 				for k, o := range m.olds {
 					if in.decide(in.tb.Bin(term.Eq, b, in.tb.BV(8, uint64(o[0])))) {
-						out = append(out, in.mkStr(m.news[k]).b...)
+						out = append(out, m.news[k].b...)
 						replaced = true
 						break
 					}
@@ -445,23 +450,23 @@ func initReplacerExternals() {
 		if !ok {
 			unsupported("strings.Replacer with multi-byte patterns on a symbolic string")
 		}
-		// generic algorithm on concrete input
-		var sb []byte
+		// generic algorithm on concrete input (replacement texts may be symbolic)
+		var out []T
 		for i := 0; i < len(cs); {
 			matched := false
 			for k, o := range m.olds {
 				if o != "" && len(cs)-i >= len(o) && cs[i:i+len(o)] == o {
-					sb = append(sb, m.news[k]...)
+					out = append(out, m.news[k].b...)
 					i += len(o)
 					matched = true
 					break
 				}
 			}
 			if !matched {
-				sb = append(sb, cs[i])
+				out = append(out, s.b[i])
 				i++
 			}
 		}
-		return in.mkStr(string(sb))
+		return str{b: out}
 	}
 }
